@@ -100,6 +100,15 @@ Theorem index_like_arguments_behave_as_ints :
 Proof. exact index_like_is_int. Qed.
 Print Assumptions index_like_arguments_behave_as_ints.
 
+(* a change made from inside a notifier (re-entrant) is an operation like any other: it too obeys the whole law,
+   in particular it is notified *)
+Theorem nested_operation_obeys_the_law :
+  forall (vld : Z -> option Z) (l : list Z) (o : op),
+    let ob := tl_step vld l o in
+    law_step vld l o ob = [] /\ law_step vld (o_after ob) (Pop (Some 0)) (tl_step vld (o_after ob) (Pop (Some 0))) = [].
+Proof. exact reaction_law. Qed.
+Print Assumptions nested_operation_obeys_the_law.
+
 (* copies: copy.copy / copy.deepcopy / pickle of a TraitList: the same values (a pickle round trip creates new
    objects: the same values up to identity, [vpart]) *)
 Theorem copy_keeps_contents :
